@@ -193,7 +193,7 @@ func c17Guid(c *hx.Ctx, g util.EFIGUID, wireToo bool) {
 				return
 			}
 			// the layout is a property of the bytes, not of how the reader portions them
-			for _, mk := range []func(io.Reader) io.Reader{iotest.OneByteReader, iotest.HalfReader, iotest.DataErrReader} {
+			for _, mk := range []func(io.Reader) io.Reader{iotest.OneByteReader, iotest.HalfReader, iotest.DataErrReader, PausingReader, LongPausingReader} {
 				sd, err := signature.ReadSignatureData(mk(bytes.NewReader(append(append([]byte{}, w[:]...), 7))), 17)
 				if err != nil || sd.Owner != g || len(sd.Data) != 1 || sd.Data[0] != 7 {
 					bad("signature owner decoded from wire bytes differs when the reader returns the bytes in smaller portions", fmt.Sprint(sd, err), g)
